@@ -1,3 +1,4 @@
+import CssVerif.Model.OutEffectDom
 import CssVerif.Lemmas.OutDeclLayout
 import CssVerif.Lemmas.OutEffectDecl
 /-!
@@ -85,26 +86,6 @@ theorem valid_property_passes (p : Prefs) : validOk p true = true := by
 
 /-! ### rules -/
 
-/-- `doDecl` returned the empty text -/
-def isEmptyOk : Except Err Cps → Bool
-  | .ok t => t.isEmpty
-  | .error _ => false
-
-/-- a rule that the preference record suppresses as a whole: a comment when comments are dropped, an unknown at-rule
-when unknown at-rules are dropped, a style rule whose declaration block is written as the empty text when empty rules
-are dropped (`lv` is the nesting level at which the rule is serialized), an `@variables` rule when variables are
-resolved -/
-def Rule.dropped (p : Prefs) (lv sl : Nat) : Rule → Bool
-  | .comment _ => !p.keepComments
-  | .unknown (.mk _ _ _) => !p.keepUnknownAtRules
-  | .style _ _ _ st => !p.keepEmptyRules && isEmptyOk (doDecl p (lv + 1) st)
-  | .variables _ _ _ _ _ => p.resolveVariables      -- `resolveVariables`: the `@variables` rules are not written
-  | .media _ _ _ _ _ _ rules =>                      -- `keepEmptyRules`: an `@media` rule whose rules write nothing
-    !p.keepEmptyRules && (match doRules p lv sl rules with
-      | .ok texts => allWs (mediaRulesOut p lv texts).flatten
-      | .error _ => false)
-  | _ => false
-
 theorem doRule_dropped (p : Prefs) (lv sl : Nat) (r : Rule) (hd : r.dropped p lv sl = true) :
     doRule p lv sl r = pure [] := by
   cases r with
@@ -154,29 +135,6 @@ theorem doRule_dropped (p : Prefs) (lv sl : Nat) (r : Rule) (hd : r.dropped p lv
 
 /-! ### the leaf preferences of the rule level as DOM rewrites -/
 
-def s_string : Cps := [115, 116, 114, 105, 110, 103]
-def s_uri : Cps := [117, 114, 105]
-
-/-- `importHrefFormat` on the DOM: `rule.hreftype` becomes the demanded format (`'string'` / `'uri'`; any other
-value, also `None`, keeps what the rule has) -/
-def hrefEffect (p : Prefs) (hrefString : Bool) : Bool :=
-  p.importHrefFormat == some s_string || (p.importHrefFormat != some s_uri && hrefString)
-
-/-- `defaultAtKeyword` on the DOM: the literal keyword is replaced by the normalised one -/
-def kwEffect (p : Prefs) (atk : Cps) (kw : Option Cps) : Option Cps := if p.defaultAtKeyword then some atk else kw
-
-/-- … for a margin rule, whose keyword may be missing -/
-def kwEffectO (p : Prefs) (atk : Option Cps) (kw : Option Cps) : Option Cps :=
-  match atk with
-  | some a => kwEffect p a kw
-  | none => kw
-
-/-- `normalizedVarNames` on the DOM: the name of a variable is replaced by its normalised name; and
-`minimizeColorHash` on its value (`effObj`) -/
-def VItem.nameEffect (p : Prefs) : VItem → VItem
-  | .var name nname v => .var (if p.normalizedVarNames then nname else name) nname (effObj p v)
-  | it => it
-
 theorem importCalls_hrefEffect (p : Prefs) (hs : Bool) (its : List EItem) :
     importCalls p (hrefEffect p hs) its = importCalls p hs its := by
   unfold importCalls hrefEffect
@@ -208,30 +166,6 @@ theorem doVarDecl_nameEffect (p : Prefs) (lv : Nat) (vars : List VItem) :
   unfold doVarDecl
   have he : (vars.map (VItem.nameEffect p)).isEmpty = vars.isEmpty := by cases vars <;> rfl
   rw [he, varDeclCalls_nameEffect]
-
-mutual
-/-- the documented effect of the content preferences on the rule tree: the suppressed rules (`keepComments`,
-`keepUnknownAtRules`, `keepEmptyRules`, `resolveVariables`) are removed at every nesting depth; what is left has its
-leaves rewritten: `importHrefFormat` sets the href type, `defaultAtKeyword` replaces every literal keyword by the
-normalised one, `normalizedVarNames` replaces variable names by their normalised names; in every declaration block
-(`effectDecl`) `defaultPropertyName` / `defaultPropertyPriority` replace literal names and priorities by the normalised
-ones and `minimizeColorHash` shortens the HASH items of the values -/
-def effectRule (p : Prefs) (lv sl : Nat) : Rule → Rule
-  | .media a atk kw d e f rules => .media a atk (kwEffect p atk kw) d e f (effectRules p lv sl rules)
-  | .page a atk kw d st rules => .page a atk (kwEffect p atk kw) d (effectDecl p st) (effectRules p lv sl rules)
-  | .comment t => .comment t
-  | .charset a b => .charset a b
-  | .import_ a atk kw hs e => .import_ a atk (kwEffect p atk kw) (hrefEffect p hs) e
-  | .namespace_ a atk kw d e f => .namespace_ a atk (kwEffect p atk kw) d e f
-  | .margin atk kw c st => .margin atk (kwEffectO p atk kw) c (effectDecl p st)
-  | .fontface a atk kw d st => .fontface a atk (kwEffect p atk kw) d (effectDecl p st)
-  | .style a b c st => .style a b c (effectDecl p st)
-  | .unknown r => .unknown r
-  | .variables a atk kw d vars => .variables a atk (kwEffect p atk kw) d (vars.map (VItem.nameEffect p))
-def effectRules (p : Prefs) (lv sl : Nat) : List Rule → List Rule
-  | [] => []
-  | r :: t => if r.dropped p lv sl then effectRules p lv sl t else effectRule p lv sl r :: effectRules p lv sl t
-end
 
 def nonEmptyTexts (l : List Cps) : List Cps := l.filter fun t => !t.isEmpty
 
@@ -344,10 +278,6 @@ theorem doRules_effect (p : Prefs) (lv sl : Nat) : ∀ rs : List Rule,
         · simp only [nonEmptyTexts, List.filter_cons] at ih ⊢
           split <;> simp [ih]
 end
-
-/-- the documented effect of the rule-level content preferences on a sheet -/
-def effectSheet (p : Prefs) (s : Sheet) : Sheet :=
-  { s with rules := effectRules p 0 0 (s.rules.filter fun r => !nsDropped p s.usedUris r) }
 
 theorem nsDropped_of_effectRule (p : Prefs) (lv sl : Nat) (used : List (Option Cps)) (r : Rule) :
     nsDropped p used (effectRule p lv sl r) = nsDropped p used r := by
